@@ -34,7 +34,7 @@ type docBuilder struct {
 
 func (g *Gen) Case(i int) Case {
 	r := rng.New(g.seed*1000003 + uint64(i)*7919 + 17)
-	b := &docBuilder{g: g, r: r, usedVar: map[string]bool{}, defer_: g.profile == "c13"}
+	b := &docBuilder{g: g, r: r, usedVar: map[string]bool{}, defer_: g.profile == "c13" || g.profile == "c13clean"}
 	root := g.s.Query
 	kind := "query"
 	if g.s.Mutation != nil && r.Below(8) == 0 {
@@ -73,7 +73,7 @@ func (g *Gen) Case(i int) Case {
 		rates.Delay, rates.MaxDelay = 400, 300
 	case "c13":
 		rates.Delay, rates.MaxDelay = 300, 300
-	case "clean":
+	case "clean", "c13clean":
 		rates = Rates{MaxLen: 3}
 	}
 	if r.Below(5) == 0 { // a fifth of the cases are fault-free so deep results are seen too
